@@ -228,9 +228,12 @@ def make_det_perm(det, n, p=2):
     if det == "PELT":
         from .c02 import split_inequalities
         base += split_inequalities(n, 1, p)
-    if det in ("CAPA", "MVCAPA"):
+    if det in ("CAPA", "MVCAPA", "MVCAPA-rank-penalties"):
         from .c03 import table_assumptions
         base += table_assumptions(n, p, 2, n)
+    if det == "MVCAPA-rank-penalties":
+        gap = z3.RealVal(Fraction(1e-8))
+        base += [z3.Real("palpha") >= 0] + [z3.Real(f"pbeta_{k}") >= gap for k in range(p)] + [z3.Real("pbeta_0") != z3.Real(f"pbeta_{p - 1}")]
 
     def build(perm):
         from skchange.anomaly_detectors import CAPA, MVCAPA, CircularBinarySegmentation
@@ -252,6 +255,13 @@ def make_det_perm(det, n, p=2):
             return CircularBinarySegmentation(mk(TableLocalScore), threshold_scale=s, min_segment_length=1, growth_factor=2.0)
         if det == "CAPA":
             return CAPA(mk(TableSaving), mk(TableSaving, tag="P"), collective_penalty_scale=s, point_penalty_scale=s, min_segment_length=2)
+        if det == "MVCAPA-rank-penalties":
+            # per-component point penalties that differ by rank (user callable): the affected columns must
+            # still follow the column permutation
+            pb = [z3.Real(f"pbeta_{k}") for k in range(p)]
+            f = lambda n_, p_, k_=1, scale=1.0: (SymReal(z3.Real("palpha")), np.array([SymReal(b) for b in pb], dtype=object))
+            return MVCAPA(mk(TableSaving), mk(TableSaving, tag="P"), collective_penalty="sparse", collective_penalty_scale=s,
+                          point_penalty=f, min_segment_length=2)
         return MVCAPA(mk(TableSaving), mk(TableSaving, tag="P"), collective_penalty="sparse", collective_penalty_scale=s,
                       point_penalty="sparse", point_penalty_scale=s, min_segment_length=2)
 
@@ -264,7 +274,7 @@ def make_det_perm(det, n, p=2):
         else:
             ia, ib = [int(v) for v in a["ilocs"]], [int(v) for v in b["ilocs"]]
         acc.concrete("perm.detections_unchanged", ia == ib, dict(info, original=ia, permuted=ib), eng=eng)
-        if det == "MVCAPA" and ia == ib:
+        if det.startswith("MVCAPA") and ia == ib:
             ca = [sorted(int(c) for c in v) for v in a["icolumns"]]
             cb = [sorted(pi[int(c)] for c in v) for v in b["icolumns"]]
             if ca == cb:
@@ -279,6 +289,12 @@ def make_det_perm(det, n, p=2):
                     distinct += [vs[i] != vs[j] for i in range(p) for j in range(i + 1, p)]
                     beta = 2 * z3.Real("scale") * z3.RealVal(Fraction(math.log(p)))
                     distinct += [v != beta for v in vs]
+                    if det == "MVCAPA-rank-penalties" and tag == "P":
+                        # ties between the candidate subsets' penalised savings
+                        pbs = [z3.Real(f"pbeta_{k}") for k in range(p)]
+                        srt = [(vs[0], vs[1]), (vs[1], vs[0])] if p == 2 else []
+                        for hi_, lo_ in srt:
+                            distinct.append(lo_ != pbs[1])
                 acc.oblige(eng, "perm.affected_columns_permuted_accordingly", z3.Not(z3.And(distinct)),
                            dict(info, original=ca, permuted_mapped_back=cb))
         acc.add_to("outputs", str(ia))
@@ -369,12 +385,12 @@ def jobs(tier):
     out = []
     if tier == "quick":
         n, p, lim = 4, 2, 10
-        dets = [("PELT", 4), ("MovingWindow", 4), ("SBS", 4), ("CBS", 5), ("CAPA", 3), ("MVCAPA", 2)]
+        dets = [("PELT", 4), ("MovingWindow", 4), ("SBS", 4), ("CBS", 5), ("CAPA", 3), ("MVCAPA", 2), ("MVCAPA-rank-penalties", 2)]
         pel = [("reverse", 3), ("reverse", 4), ("scale", 3), ("scale", 4)]
         mws = [("L2Cost", 5, 1, 2), ("L2Cost", 5, 2, 1), ("CUSUM", 4, 1, 1)]
     else:
         n, p, lim = 5, 2, None
-        dets = [("PELT", 4), ("PELT", 5), ("MovingWindow", 5), ("SBS", 4), ("CBS", 5), ("CAPA", 3), ("CAPA", 4), ("MVCAPA", 2), ("MVCAPA", 3)]
+        dets = [("PELT", 4), ("PELT", 5), ("MovingWindow", 5), ("SBS", 4), ("CBS", 5), ("CAPA", 3), ("CAPA", 4), ("MVCAPA", 2), ("MVCAPA", 3), ("MVCAPA-rank-penalties", 2)]
         pel = [("reverse", k) for k in (3, 4, 5)] + [("scale", k) for k in (3, 4, 5)]
         mws = [("L2Cost", 6, 1, 2), ("L2Cost", 6, 2, 2), ("L2Cost", 7, 3, 1), ("CUSUM", 5, 1, 1), ("CUSUM", 5, 2, 1)]
     zoo = list(scorer_zoo(p))
@@ -483,13 +499,18 @@ def replay(cx):
                     return CircularBinarySegmentation(mk(TableLocalScore, perm), threshold_scale=s, min_segment_length=1, growth_factor=2.0)
                 if det == "CAPA":
                     return CAPA(mk(TableSaving, perm), mk(TableSaving, perm, tag="P"), collective_penalty_scale=s, point_penalty_scale=s, min_segment_length=2)
+                if det == "MVCAPA-rank-penalties":
+                    pbn = np.array([env.get(f"pbeta_{k}", 0.0) for k in range(p)])
+                    fnum = lambda n_, p_, k_=1, scale=1.0: (env.get("palpha", 0.0), pbn)
+                    return MVCAPA(mk(TableSaving, perm), mk(TableSaving, perm, tag="P"), collective_penalty="sparse", collective_penalty_scale=s,
+                                  point_penalty=fnum, min_segment_length=2)
                 return MVCAPA(mk(TableSaving, perm), mk(TableSaving, perm, tag="P"), collective_penalty="sparse", collective_penalty_scale=s,
                               point_penalty="sparse", point_penalty_scale=s, min_segment_length=2)
             a, b = build(False).fit(X).predict(X), build(True).fit(X).predict(X)
             ia, ib = [str(v) for v in a["ilocs"]], [str(v) for v in b["ilocs"]]
             if ia != ib:
                 bad.append(f"detections {ia} become {ib} after swapping the columns of the scorer")
-            elif det == "MVCAPA":
+            elif det.startswith("MVCAPA"):
                 ca = [sorted(int(c) for c in v) for v in a["icolumns"]]
                 cb = [sorted(pi[int(c)] for c in v) for v in b["icolumns"]]
                 if ca != cb:
